@@ -21,6 +21,7 @@ def main():
     wanted = set(baseline["stable_pass"])
     env = dict(os.environ)
     env.pop("EMSARRAY_VERIF", None)
+    env["PYTHONPATH"] = os.path.join(REPO, "src")   # test the tree named by VERIF_REPO
     with tempfile.TemporaryDirectory() as tmp:
         xml_path = os.path.join(tmp, "junit.xml")
         cmd = ["/venv/bin/python", "-m", "pytest", "-ra", "-q", "-p", "no:cacheprovider",
